@@ -10,6 +10,7 @@
 //   kind 4 : (4 calc ndim nvar hasSel hasW samples (nxx..) (dxx..))            db_vmap on points (radius 0)
 //            result = ( ((Nb..) (Var..)) per variable pair )
 //   kind 5 : (5 ndim hasSel samples dir lagnb varnb dx0 dx1)                   db_vcloud: counts per cell (() = empty)
+//   kind 6 : (6 norder (nx..) (dx..) (x0..) cells hasSel dir)                   generalised variogram along lines (DbGrid with a code, ordinary direction)
 //   kind 9 : (9 (tolang..))  -> psmin as computed by the library for each angular tolerance
 #include "sx.hpp"
 #include "Db/Db.hpp"
@@ -173,6 +174,38 @@ static std::string run(const Sx& c) {
       o << "(" << sx_vd(m->getColumnByColIdx(nc - nvs2 + k, false, false)) << " " << sx_vd(m->getColumnByColIdx(nc - 2 * nvs2 + k, false, false)) << ")";
     o << ")";
     delete m; delete g;
+    return o.str();
+  }
+  if (kind == 6) {
+    int norder = (int) c[1].i();
+    VectorInt nx = c[2].vi(); VectorDouble dx = c[3].vd(), x0 = c[4].vd();
+    int ndim = (int) nx.size();
+    const Sx& cells = c[5]; bool hasSel = c[6].b();
+    defineDefaultSpace(ESpaceType::RN, ndim);
+    int n = 1; for (int d = 0; d < ndim; d++) n *= nx[d];
+    if ((int) cells.size() != n) return "(-997 3)";
+    VectorString names; std::vector<std::pair<ELoc, int>> locs;
+    if (hasSel) { names.push_back("sel"); locs.push_back({ELoc::SEL, 0}); }
+    names.push_back("code"); locs.push_back({ELoc::C, 0});
+    names.push_back("z1"); locs.push_back({ELoc::Z, 0});
+    int ncol = (int) names.size();
+    VectorDouble tab((size_t) n * ncol);
+    for (int i = 0; i < n; i++) {
+      int col = 0;
+      if (hasSel) tab[(size_t) (col++) * n + i] = cells[i][0].b() ? 1. : 0.;
+      tab[(size_t) (col++) * n + i] = 1.;
+      tab[(size_t) (col++) * n + i] = cells[i][1][0].d(TEST);
+    }
+    DbGrid* g = DbGrid::create(nx, dx, x0, VectorDouble(), ELoadBy::COLUMN, tab, names, VectorString(), false, true);
+    if (g == nullptr) return "(-997 4)";
+    for (int k = 0; k < ncol; k++) g->setLocator(names[k], locs[k].first, locs[k].second);
+    const Sx& d = c[7];
+    DirParam dp((int) d[0].i(), d[1].d(), d[2].d(), d[3].d(), 0, 0, d[6].d(TEST), d[7].d(TEST), 0., VectorDouble(), d[5].vd(), TEST);
+    VarioParam vp; vp.addDir(dp);
+    Vario* v = Vario::computeFromDb(vp, g, calcOf(5 + norder));
+    if (v == nullptr) { delete g; return "(-996 7)"; }
+    o << "("; dumpDir(o, v, 0, 1); o << ")";
+    delete v; delete g;
     return o.str();
   }
   if (kind == 4 || kind == 5) {
